@@ -2174,7 +2174,7 @@ class SourceCatalog:
             xcen = self._xcentroid
             ycen = self._ycentroid
             bkg = map_coordinates(self._background, (xcen, ycen), order=1,
-                                  mode='nearest')
+                                  mode='nearest', output=float)
 
             mask = np.isfinite(xcen) & np.isfinite(ycen)
             bkg[~mask] = np.nan
